@@ -4,12 +4,13 @@ EXTENDS Header
 MCTags       == {"a", "b"}
 MCShapes     == {"none", "empty", "line1", "line3", "groups", "block1", "blockN", "mixed", "lead",
                  "apache", "bsdlist", "numbered", "heading", "indented", "dashlist", "blocklist", "trailsp",
-                 "k8sblock", "blockslash", "blockbuild", "blocks2", "dneline", "dneblock", "othermarker", "nearmiss"}
+                 "k8sblock", "blockslash", "blockbuild", "blocks2", "dneline", "dneblock", "othermarker", "nearmiss", "crlf", "bom"}
 MCFormatters == {"goimports", "gofmt", "noop"}
 MCTemplates  == {"testify", "matryer"}
-MCPlacements == {"separate", "inpkg"}
+MCPlacements == {"separate", "inpkg", "intest", "xtest"}   \* xtest: external test package (pkgname src_test) in the source directory
 MCPathKinds  == {"abs", "rel"}          \* boilerplate-file given absolute / relative to the working directory
 MCTdLevels   == {"pkg", "both", "root"}
 MCFsStates   == {"bare", "entries"}
-MCSpellings  == {"full", "min"}         \* expression written fully parenthesised / with minimal parentheses
+MCSpellings  == {"full", "min", "spaced"}
+MCSrcShapes  == {"one", "two", "empty"}         \* expression written fully parenthesised / with minimal parentheses
 =============================================================================
